@@ -87,6 +87,23 @@ func (q *PriorityQueue[T]) Dequeue() (any, bool) {
 	return popped.Value, true
 }
 
+// Drain removes all items from the queue and returns them, in one step under the lock.
+// Unlike Values followed by Purge it cannot lose an item enqueued in between.
+func (q *PriorityQueue[T]) Drain() []any {
+	q.mx.Lock()
+	defer q.mx.Unlock()
+
+	values := make([]any, 0, len(q.internal.items))
+	for _, item := range q.internal.items {
+		values = append(values, item.Value)
+	}
+
+	q.internal.items = make([]*enqItem[T], 0)
+	heap.Init(q.internal)
+
+	return values
+}
+
 func (q *PriorityQueue[T]) Purge() {
 	q.mx.Lock()
 	defer q.mx.Unlock()
